@@ -32,6 +32,9 @@ type memConn struct {
 	tag         string
 	serveID     string
 	closedReads int // Reads that found the transport closed: the reader has got to the end of what was buffered
+
+	honourDeadlines bool
+	rdDeadline      time.Time
 }
 
 type memAddr struct{ net, s string }
@@ -91,6 +94,19 @@ func (c *memConn) Read(p []byte) (int, error) {
 		if c.rdEOF {
 			return 0, io.EOF
 		}
+		if c.honourDeadlines && !c.rdDeadline.IsZero() {
+			d := time.Until(c.rdDeadline)
+			if d <= 0 {
+				return 0, timeoutErr{}
+			}
+			// wake this reader up when the deadline passes
+			t := time.AfterFunc(d, func() { c.mu.Lock(); c.cond.Broadcast(); c.mu.Unlock() })
+			c.blocked++
+			c.cond.Wait()
+			c.blocked--
+			t.Stop()
+			continue
+		}
 		c.blocked++
 		c.cond.Wait()
 		c.blocked--
@@ -131,7 +147,16 @@ func (c *memConn) Close() error {
 func (c *memConn) LocalAddr() net.Addr                { return c.local }
 func (c *memConn) RemoteAddr() net.Addr               { return c.remote }
 func (c *memConn) SetDeadline(t time.Time) error      { return nil }
-func (c *memConn) SetReadDeadline(t time.Time) error  { return nil }
+
+// SetReadDeadline: a Read that finds nothing to return gives up with a timeout error at t
+// (only for connections that ask for it with honourDeadlines; the others wait for their script)
+func (c *memConn) SetReadDeadline(t time.Time) error {
+	c.mu.Lock()
+	c.rdDeadline = t
+	c.cond.Broadcast()
+	c.mu.Unlock()
+	return nil
+}
 func (c *memConn) SetWriteDeadline(t time.Time) error { return nil }
 
 // peer side
